@@ -3100,11 +3100,13 @@ class sptensor:
         if isinstance(other, ttb.sptensor):
             idxSelf = tt_intersect_rows(self.subs, other.subs)
             idxOther = tt_intersect_rows(other.subs, self.subs)
-            return ttb.sptensor(
-                self.subs[idxSelf],
-                self.vals[idxSelf] * other.vals[idxOther],
-                self.shape,
-            )
+            if idxSelf.size == 0:
+                return ttb.sptensor(shape=self.shape)
+            # A product of two nonzeros can be exactly zero (underflow, integer
+            # wrap-around): such entries are not stored
+            cvals = self.vals[idxSelf] * other.vals[idxOther]
+            keep = cvals[:, 0] != 0
+            return ttb.sptensor(self.subs[idxSelf][keep], cvals[keep], self.shape)
         if isinstance(other, ttb.tensor):
             if self.nnz == 0:
                 return self.copy()
@@ -3465,6 +3467,10 @@ class sptensor:
                 idxOther = tt_intersect_rows(other.subs, self.subs)
                 newsubs = self.subs[idxSelf, :]
                 newvals = self.vals[idxSelf] / other.vals[idxOther]
+                # A quotient of two nonzeros can underflow to exactly zero: not stored
+                if newvals.size > 0:
+                    keep = newvals[:, 0] != 0
+                    newsubs, newvals = newsubs[keep], newvals[keep]
             else:
                 newsubs = np.empty((0, len(self.shape)), dtype=int)
                 newvals = np.empty((0, 1))
@@ -3502,7 +3508,9 @@ class sptensor:
                 return self.copy()
             csubs = self.subs
             cvals = self.vals / self._dense_vals_at_subs(other)
-            return ttb.sptensor(csubs, cvals, self.shape)
+            # A quotient of two nonzeros can underflow to exactly zero: not stored
+            keep = cvals[:, 0] != 0
+            return ttb.sptensor(csubs[keep], cvals[keep], self.shape)
         if isinstance(other, ttb.ktensor):
             # TODO consider removing epsilon and generating nans consistent with above
             epsilon = np.finfo(float).eps
